@@ -119,7 +119,13 @@ func (rc *realController) UpgradeBatch(ctx *batchcontext.BatchContext) error {
 	}
 
 	strategy := util.GetDeploymentStrategy(rc.object)
-	if control.IsCurrentMoreThanOrEqualToDesired(strategy.Partition, ctx.DesiredPartition) {
+	if strategy.Partition.Type == ctx.DesiredPartition.Type {
+		if control.IsCurrentMoreThanOrEqualToDesired(strategy.Partition, ctx.DesiredPartition) {
+			return nil // Satisfied, no need patch again.
+		}
+	} else if deploymentutil.NewRSReplicasLimit(strategy.Partition, rc.object) >= deploymentutil.NewRSReplicasLimit(ctx.DesiredPartition, rc.object) {
+		// a percentage and an absolute number are only comparable through the replicas they
+		// resolve to ("50%" is not >= 80 for a workload of 100 replicas).
 		return nil // Satisfied, no need patch again.
 	}
 
